@@ -150,19 +150,21 @@ def gen_records(rng, kind, ms, dp, nref, scale, hi, n):
         j = i
         while j < n and rids[j] == rids[i]:
             j += 1
-        starts = sorted(edge_pos(rng, ms, dp, scale, hi - 1) for _ in range(j - i))
+        starts = sorted(edge_pos(rng, ms, dp, scale, hi) for _ in range(j - i))
         if rng.random() < 0.3 and len(starts) > 1:
             k = rng.randrange(1, len(starts))
             starts[k] = starts[k - 1]               # equal starts
         for s in starts:
-            ln = rec_len(rng, ms, dp, s, hi)
-            e = min(hi, s + ln)
+            ln = rec_len(rng, ms, dp, s, hi + 1)
+            e = min(hi + 1, s + ln)            # the end is exclusive: one past the last indexable position
             if e <= s:
                 e = s + 1
-                if e > hi:
-                    s, e = hi - 1, hi
             recs.append(dict(rid=rids[i], pos=s, end=e))
         i = j
+    if scale >= hi and recs and rng.random() < 0.5:
+        last = max(r['rid'] for r in recs)
+        p = hi - rng.choice([0, 0, 1, 5])
+        recs.append(dict(rid=last, pos=p, end=min(hi + 1, p + rng.choice([1, 1, 2]))))
     recs.sort(key=lambda r: (r['rid'], r['pos']))
     return recs
 
@@ -300,7 +302,7 @@ def gen_case(rng, kind, tier, flavour=None, small=False):
     if flavour == 'range':
         r = rng.choice([x for x in recs if not x.get('unplaced')] or recs)
         if rng.random() < 0.5:
-            r['end'] = hi + rng.choice([1, 2, 1000])
+            r['end'] = hi + rng.choice([2, 3, 1000])
             if kind == 'bai':
                 r['cig'] = cigar_for(rng, r['end'] - r['pos'])
                 r['flags'] = 0
@@ -406,7 +408,7 @@ def gen_nested(rng, kind, tier):
 
 
 def gen_cases(rng, tier, kinds=('bai', 'csi', 'tabix'), n=None, small=False):
-    per = n if n is not None else (80 if tier == 'quick' else 1200)
+    per = n if n is not None else (60 if tier == 'quick' else 400)
     cases = []
     for kind in kinds:
         for i in range(per):
